@@ -18,7 +18,7 @@ def base_script(case, stream_override=None, end_override=None, silent=False):
     script = [["wait_request"]]
     if stream_override is not None:
         script.append(["stream", [["bytes", stream_override]], "whole", 0.0])
-        script.append([end_override, 0.0])
+        script.append(end_step(end_override, 0.0))
         return script, pre, post
     script.append(["stream", [["reply", None], ["bytes", bytes(pre.data)]], case["seg"], 0.0])
     if case["idle"]:
@@ -29,8 +29,18 @@ def base_script(case, stream_override=None, end_override=None, silent=False):
     else:
         script.append(["stream", [["bytes", bytes(post.data)]], "whole", 0.0])
     if not silent:
-        script.append([case["end"], 0.5])
+        script.append(end_step(case["end"], 0.5))
     return script, pre, post
+
+
+# how a transport ends: the peer's FIN, or a failure that every later read reports again
+END_KINDS = ("eof", "reset", "io_error", "tls_error", "tls_eof")
+
+
+def end_step(end, dt):
+    if end in ("eof", "reset"):
+        return [end, dt]
+    return ["reset", dt, end]
 
 
 def base_scenario(case, faults=None, addrs=None, resolve=None, stream_override=None, end_override=None, silent=False):
@@ -46,8 +56,9 @@ def base_scenario(case, faults=None, addrs=None, resolve=None, stream_override=N
     if resolve:
         att["resolve"] = resolve
     copts = {"poll": 1.0, "ping_rate": 1.0 if case["idle"] else 0, "close_timeout": 5.0}
+    kw = {"url": "wss://example.test/"} if case.get("tls") else {}
     return build.scenario(script, reactions=reactions, connect_opts=copts, attempt_extra=att,
-                          horizon=300.0 if silent else 2000.0)
+                          horizon=300.0 if silent else 2000.0, **kw)
 
 
 class C09(Prop):
@@ -58,7 +69,7 @@ class C09(Prop):
             "is then re-run once per (operation, fault): resolver error; connect refused on the first j of n addresses (all n and "
             "fewer); every sendall x {reset, timeout, arbitrary exception}; every recv x {reset, timeout, arbitrary exception}; "
             "the stream truncated at every byte offset (every offset up to 400 bytes, structure boundaries beyond) followed by EOF "
-            "and by reset; every selector wait x {OSError, arbitrary exception}; shutdown/close raising. Oracle: nothing escapes "
+            "and by reset (on wss:// also by a fatal TLS error that every later read repeats); every selector wait x {OSError, arbitrary exception}; shutdown/close raising. Oracle: nothing escapes "
             "next(), no hang, ConnectFail before Connected else Disconnected, graceful=False when no Close frame was ever sent or "
             "received, every socket released, application send errors are WebSocketError, C07 grammar. Non-trivial = fault strictly "
             "after Ready, or inside a frame, or on a library-initiated write. Each faulted execution counts as one evaluation.")
@@ -80,9 +91,12 @@ class C09(Prop):
             "sends": sends,
             "client_close": st.one_of(st.none(), st.none(), st.integers(0, 3)),
             "server_close": gen.weighted([(3, st.just(False)), (1, st.just(True))]),
-            "end": st.sampled_from(["eof", "eof", "reset"]),
+            "end": st.sampled_from(["eof", "eof", "reset", "io_error", "tls_error", "tls_eof"]),
             "seg": st.sampled_from(["whole", "whole", ["uniform", 7], ["uniform", 50]]),
             "naddrs": st.integers(1, 4),
+            # wss:// - the socket is TLS-wrapped; the handshake of an address can fail after its TCP connect
+            # succeeded, and a failed transport reports TLS errors
+            "tls": gen.weighted([(2, st.just(False)), (1, st.just(True))]),
         })
 
     # ------------------------------------------------------------------
@@ -172,6 +186,26 @@ class C09(Prop):
                             what, tr.names()))
                 if bad:
                     return failed(bad[0], bad[1], labels, False, sub)
+        # 2b. TLS: the TCP connect of the first j addresses succeeds but their TLS handshake fails
+        if case.get("tls"):
+            for how in ("reset", "eof", "cert", "timeout"):
+                for j in range(1, n + 1):
+                    addrs = [{"connect": "ok", "tls": how} for i in range(j)] + [{"connect": "ok"} for _ in range(n - j)]
+                    tr = simnet.run_scenario(base_scenario(case, addrs=addrs))
+                    sub.append(("addrs:tls_%s:%d/%d" % (how, j, n), False))
+                    labels.add("fault:tls_handshake_" + how)
+                    what = "TLS handshake fails (%s) on the first %d of %d addresses" % (how, j, n)
+                    bad = self.judge(tr, what, j == n)
+                    if not bad:
+                        tried = sum(1 for e in tr.sim.log if e[0] == "connect")
+                        want = n if j == n else j + 1
+                        if tried != want:
+                            bad = ("addresses_not_all_tried", "%s: %d addresses tried, expected %d" % (what, tried, want))
+                        elif j < n and "connected" not in tr.names():
+                            bad = ("addresses_not_all_tried", "%s: a later address completes the handshake but no "
+                                   "Connected: %s" % (what, tr.names()))
+                    if bad:
+                        return failed(bad[0], bad[1], labels, False, sub)
         # 3. every sendall
         for k in range(n_send):
             lib = k < len(send_entries) and send_entries[k][4] == "lib"
@@ -258,7 +292,7 @@ class C09(Prop):
         for s, e, what in pre.regions:
             inside |= set(range(len(reply) + s + 1, len(reply) + e))
         for k in offsets:
-            for end in ("eof", "reset"):
+            for end in (("eof", "reset", "tls_error") if case.get("tls") else ("eof", "reset")):
                 labels.add("fault:truncate_" + end)
                 bad = run("stream cut after %d of %d bytes then %s" % (k, len(stream), end),
                           "cut:%d:%s" % (k, end), k > len(reply) or k in inside,
